@@ -33,3 +33,36 @@ contract(
     locals={"all_deps": local(List(Ref("Dep")), "all_deps"), "own_deps": List(Ref("Dep"), region="@depends"),
             "parent": Opt(Ref("Task"))},
 )
+
+PJ = "scriptplan/core/project.py"
+RS = "scriptplan/core/resource_scenario.py"
+
+# ---- working-time lookups used by the slot walk ------------------------------------------------------------------
+contract(
+    PJ + "::Project.isWorkingTime", props=["C02", "C11"], reveal=["IsWT"],
+    params={"self": Ref("Project"), "sbIdx": Int}, ret=Bool,
+    requires=[("g", "PG(self) >= 1"),
+              # C11: the index is inside the table (a negative index would silently read from the end)
+              ("idx", "implies(self.scoreboard is not None, 0 <= sbIdx and sbIdx < len(some(self.scoreboard).sb))")],
+    ensures=[("exact", "result == IsWT(self, sbIdx)")],
+    calls={"self.idxToDate": ("spec", ["self", "i"], "ite(self.attributes['start'] is None, None, PT(self, i))"),
+           "self._isDefaultWorkingTime": ("spec", ["self", "d"], "ite(d is None, False, DefW(self, some(d)))")},
+    note="_isDefaultWorkingTime is used in its functional form DefW, proved as Project._isDefaultWorkingTime/exact",
+)
+
+contract(
+    PJ + "::Project._isDefaultWorkingTime", props=["C02", "C14"],
+    params={"self": Ref("Project"), "date": Opt(DT)}, ret=Bool,
+    ensures=[("exact", "result == ite(date is None, False, DefW(self, some(date)))")],
+    static={"hasattr(vac, 'interval')": True, "hasattr(vac, 'contains')": False},
+    opaque_calendar=True,
+)
+
+contract(
+    TS + "::TaskScenario.isWorkingTime", props=["C11"],
+    params={"self": Ref("TaskScenario"), "slotIdx": Int}, ret=Bool,
+    requires=[("g", "PG(self.project) >= 1"),
+              ("idx", "implies(self.project.scoreboard is not None, 0 <= slotIdx and slotIdx < len(some(self.project.scoreboard).sb))")],
+    ensures=[("exact", "result == IsWT(self.project, slotIdx)")],
+    calls={"self.project.isWorkingTime": ("contract", PJ + "::Project.isWorkingTime")},
+)
